@@ -376,6 +376,25 @@ def _returned_name(fn):
     return names.pop() if len(names) == 1 and len(rets) == len([s for s in rets if isinstance(s.value, ast.Name)]) else None
 
 
+def check_offset_names(ctx):
+    R = "C09-WIRE"
+    init = ctx.prog.func(PR, "JokerPrior.__init__", R)
+    # each offset prior is registered under ITS OWN name (the pymc variable's name): sampling and log-densities look parameters up by name
+    hits = []
+    for lp in [n for n in A.walk_local(init) if isinstance(n, ast.For)]:
+        it = A.inline_temporaries(lp.iter, lp, init)
+        if not ("v0_offsets" in A.unparse(it) and isinstance(lp.target, ast.Name)):
+            continue
+        v = lp.target.id
+        for st in lp.body:
+            if isinstance(st, ast.Assign) and isinstance(st.targets[0], ast.Subscript) and canon(st.value) == v:
+                hits.append((st, canon(st.targets[0].slice) == canon(parse("%s.name" % v)), A.unparse(st.targets[0].slice)))
+    ok = len(hits) == 1 and hits[0][1]
+    ctx.check(R, hits[0][0] if hits else init, "offset priors are registered under their own variable names", ok,
+              ("registered under `%s`, not under the variable's own name" % hits[0][2]) if hits else
+              "no `pars[p.name] = p` over the given offsets: names are assigned by position, so differently ordered (correctly named) offsets swap their priors", key="offset-names")
+
+
 def check_default(ctx):
     R = "C09-WIRE"
     fn = ctx.prog.func(PR, "JokerPrior.default", R)
@@ -653,6 +672,7 @@ def run(ctx):
     check_fcm(ctx)
     check_kipping(ctx)
     check_wire(ctx)
+    check_offset_names(ctx)
     check_default(ctx)
     check_sum(ctx)
     ctx.assume("densities and samplers of pymc / pytensor built-ins (Beta, Normal, angle) are as documented; pm.draw draws jointly from the model graph")
